@@ -1,11 +1,131 @@
-From Coq Require Import List ZArith.
-From SK Require Import lib.C17_Farkas.
+From Coq Require Import List NArith ZArith Permutation Sorting.Sorted.
+Require mathcomp.algebra.mxalgebra mathcomp.algebra.matrix mathcomp.algebra.rat.
+Require SK.lib.RankBridge SK.proof.C17_Rank.
+From SK Require Import lib.IRSortKeys lib.C17_Farkas model.C17_Model proof.C17_Proof.
 Import ListNotations.
-Open Scope Z_scope.
 
-(** A checked positive certificate proves conservativity, for every integer matrix. *)
+(** (1) build_S: one row per species, one column per reaction. *)
+Theorem C17_S_shape : forall (net : list rxn) (iso : list str),
+  length (build_S net iso) = length (species_order net iso) /\
+  Forall (fun row => length row = length (reaction_order net)) (build_S net iso) /\
+  length (reaction_order net) = length net.
+Proof. exact S_shape. Qed.
+Print Assumptions C17_S_shape.
+
+(** (2) rows = the species of the network (occurring or kept), strictly sorted by label. *)
+Theorem C17_S_rows : forall (net : list rxn) (iso : list str),
+  species_order net iso = species_set net iso /\
+  @ssorted str strleb (species_order net iso) /\
+  forall s, In s (species_order net iso) <-> (exists e, In e net /\ In s (rxn_species e)) \/ In s iso.
+Proof.
+  intros net iso. split; [apply species_order_eq|]. rewrite species_order_eq.
+  split; [apply species_set_sorted | apply species_set_in].
+Qed.
+Print Assumptions C17_S_rows.
+
+(** (3) columns = the reactions, in the stable order by rule label, then by edge id. *)
+Theorem C17_S_columns : forall (net : list rxn),
+  Permutation (reaction_order net) net /\
+  StronglySorted (fun a b => (strleb (rrule a) (rrule b) = true /\ rrule a <> rrule b) \/
+                             (rrule a = rrule b /\ strleb (rid a) (rid b) = true)) (reaction_order net).
+Proof. intros net. split; [apply reaction_order_perm | apply reaction_order_sorted]. Qed.
+Print Assumptions C17_S_columns.
+
+(** (4) entry (species s, reaction e) = produced - consumed; S_minus / S_plus hold the two amounts. *)
+Theorem C17_S_entries : forall (net : list rxn) (iso : list str), NoDup (map rid net) ->
+  forall i j s e, nth_error (species_order net iso) i = Some s -> nth_error (reaction_order net) j = Some e ->
+  nth j (nth i (build_S net iso) []) 0%Z = (produced s e - consumed s e)%Z /\
+  nth j (nth i (S_minus net iso) []) 0%Z = consumed s e /\
+  nth j (nth i (S_plus net iso) []) 0%Z = produced s e.
+Proof.
+  intros net iso ND i j s e Hi Hj. split; [apply S_entries; auto | apply S_minus_plus_entries; auto].
+Qed.
+Print Assumptions C17_S_entries.
+
+(** (5) build_S equals the network's own incidence matrix (rows sorted species, columns sorted edge ids) up to the
+        stated column order. *)
+Theorem C17_S_incidence : forall (net : list rxn) (iso : list str), NoDup (map rid net) ->
+  species_order net iso = species_set net iso /\
+  Permutation (reaction_order net) (edges_sorted net) /\
+  forall i j j' s e, nth_error (species_order net iso) i = Some s ->
+    nth_error (reaction_order net) j = Some e -> nth_error (edges_sorted net) j' = Some e ->
+    nth j (nth i (build_S net iso) []) 0%Z = nth j' (nth i (incidence net iso) []) 0%Z.
+Proof. exact S_incidence. Qed.
+Print Assumptions C17_S_incidence.
+
+(** (6) a checked rank certificate gives the exact rank over the rationals (MathComp \rank), for every integer matrix;
+        the kernels have dimensions m - r and n - r. *)
+Theorem C17_rank_cert_sound : forall (m n : nat) (S : list (list Z)) (c : rcert),
+  rank_checked m n S c = true ->
+  let F := mathcomp.algebra.rat.rat_fieldType in
+  let M := SK.lib.RankBridge.toM m n S in
+  @mathcomp.algebra.mxalgebra.mxrank F m n M = rc_r c /\
+  @mathcomp.algebra.mxalgebra.mxrank F m m (@mathcomp.algebra.mxalgebra.kermx F m n M) = (m - rc_r c)%nat /\
+  @mathcomp.algebra.mxalgebra.mxrank F n n
+     (@mathcomp.algebra.mxalgebra.kermx F n m (@mathcomp.algebra.matrix.trmx mathcomp.algebra.rat.rat m n M)) = (n - rc_r c)%nat.
+Proof.
+  intros m n S c H. split; [apply SK.proof.C17_Rank.rank_checked_sound; exact H|].
+  exact (SK.proof.C17_Rank.kernel_dims H).
+Qed.
+Print Assumptions C17_rank_cert_sound.
+
+(** (7) conservativity certificates (Stiemke, easy direction), for every integer matrix. *)
 Theorem C17_pos_cert_sound : forall (n : nat) (S : list (list Z)) (y : list Z),
   check_pos n S y = true ->
-  exists y, length y = length S /\ Forall (fun t => 0 < t) y /\ Forall (fun t => t = 0) (vecmat n y S).
+  exists y, length y = length S /\ Forall (fun t => (0 < t)%Z) y /\ Forall (fun t => t = 0%Z) (vecmat n y S).
 Proof. exact pos_cert_sound. Qed.
 Print Assumptions C17_pos_cert_sound.
+
+Theorem C17_neg_cert_sound : forall (n : nat) (S : list (list Z)) (x : list Z),
+  check_neg n S x = true ->
+  ~ exists y, length y = length S /\ Forall (fun t => (0 < t)%Z) y /\ Forall (fun t => t = 0%Z) (vecmat n y S).
+Proof. exact neg_cert_sound. Qed.
+Print Assumptions C17_neg_cert_sound.
+
+(** (8) consistency certificates. *)
+Theorem C17_flux_pos_cert_sound : forall (n : nat) (S : list (list Z)) (v : list Z),
+  check_fpos n S v = true ->
+  exists v, length v = n /\ Forall (fun t => (0 < t)%Z) v /\ Forall (fun t => t = 0%Z) (matvec S v).
+Proof. exact fpos_cert_sound. Qed.
+Print Assumptions C17_flux_pos_cert_sound.
+
+Theorem C17_flux_neg_cert_sound : forall (n : nat) (S : list (list Z)) (y : list Z),
+  check_fneg n S y = true ->
+  ~ exists v, length v = n /\ Forall (fun t => (0 < t)%Z) v /\ Forall (fun t => t = 0%Z) (matvec S v).
+Proof. exact fneg_cert_sound. Qed.
+Print Assumptions C17_flux_neg_cert_sound.
+
+(** (9) a checked certificate DECIDES the question (what the per-input comparison relies on). *)
+Theorem C17_cert_decides : forall (n : nat) (S : list (list Z)) (c : fcert) (b : bool),
+  (decide_conservative n S c = Some b -> (b = true <-> conservative n S)) /\
+  (decide_consistent n S c = Some b -> (b = true <-> consistent n S)).
+Proof. intros n S c b. split; [apply decide_conservative_sound | apply decide_consistent_sound]. Qed.
+Print Assumptions C17_cert_decides.
+
+(** (10) the code's verdict logic never reports a law / flux that does not exist, provided the numerics it consults
+         are sound (explicit premises: a sign-definite kernel basis column / an LP solution is a genuine witness). *)
+Theorem C17_verdicts_sound : forall (k kr n : nat) (S : list (list Z)) (nm : numerics),
+  (nm_scanL nm = true -> conservative n S) -> (nm_lpL nm = true -> conservative n S) ->
+  (nm_lpR nm = 0%nat -> consistent n S) -> (nm_scanR nm = true -> consistent n S) ->
+  (conservative_verdict k nm = true -> conservative n S) /\
+  (consistent_verdict kr nm = Some true -> consistent n S).
+Proof.
+  intros k kr n S nm H1 H2 H3 H4. split; [apply conservative_verdict_sound; auto | apply consistent_verdict_sound; auto].
+Qed.
+Print Assumptions C17_verdicts_sound.
+
+(** (11) REFUTED for the code as it is (known finding, kept because two repository tests pin it): "reported
+         conservative whenever a strictly positive law exists".  Witness A + B <-> C: conservative; B_ABC is a basis of
+         its left kernel with no sign-definite column; the LP the code poses over it (min 1^T a, B a >= eps, a free;
+         eps scaled to 1) is feasible and unbounded; on "no success" the code answers False. *)
+Theorem C17_conservative_complete_refuted :
+  exists (net : list rxn) (B : list (list Z)),
+    let S := build_S net [] in
+    conservative 2 S /\
+    (forall j, (j < 2)%nat -> all_zero (vecmat 2 (col j B) S) = true) /\
+    (forall j, (j < 2)%nat -> all_pos (col j B) = false /\ all_pos (map Z.opp (col j B)) = false) /\
+    (exists a0, forallb (fun t => (1 <=? t)%Z) (matvec B a0) = true) /\
+    (exists d, all_nonneg (matvec B d) = true /\ (fold_right Z.add 0%Z d < 0)%Z) /\
+    conservative_verdict 2 (Num false false 0 false) = false.
+Proof. exists net_ABC, B_ABC. exact conservative_complete_refuted. Qed.
+Print Assumptions C17_conservative_complete_refuted.
